@@ -53,7 +53,8 @@ def main():
             failed = [l for l in r.stdout.splitlines() if l.startswith("--- FAIL") or l.startswith("FAIL")]
             # the baseline itself has one always-failing test (TestNewTodoApp) and two flaky refactor tests
             real = [l for l in failed if "TestNewTodoApp" not in l and "pkg/application/todo" not in l and l.strip() != "FAIL"
-                    and "TestMoveClassApp" not in l and "TestRenameMethodApp" not in l and "refactor/moveclass" not in l and "refactor/rename\t" not in l]
+                    and "TestMoveClassApp" not in l and "TestRenameMethodApp" not in l and "refactor/moveclass" not in l and "refactor/rename\t" not in l
+                    and "TestRemoveUnusedImportApp_Analysis" not in l and "refactor/unused\t" not in l]
             tests_ok = not real
             if not tests_ok:
                 print("%-50s repository tests FAIL on this mutant (not a valid seeded change): %s" % (name, real[:3]))
